@@ -279,14 +279,52 @@ def gen_tmpl():
     need(r"if\s*\(\s*priorityOfRule\s*>\s*priorityOfBestMatched\s*\)", body, "findTemplate: non-quiet '>' test")
     need(r"else\s+if\s*\(\s*priorityOfRule\s*==\s*priorityOfBestMatched\s*\)", body, "findTemplate: non-quiet '==' test")
     need(r"bestMatchedPattern\s*=\s*conflicts\[0\]\s*;", body, "findTemplate: conflicts[0]")
-    need(r"if\s*\(\s*!patterns->empty\(\)\s*&&\s*!\(\s*prevMatchPat\s*!=\s*0\s*&&\s*"
-         r"prevMatchPat->getTemplate\(\)\s*==\s*matchPat->getTemplate\(\)\s*\)\s*\)", body,
-         "findTemplate: non-quiet same-template skip")
+    # which test is applied to a table entry: the whole match pattern, or (after the repair of K1) the
+    # alternative the entry was created for.  Both paths must agree; the skip of the conflict-reporting
+    # path has a matching form for each variant.
+    calls = re.findall(r"xpath->getMatchScore\(\s*targetNode\s*,\s*\*this\s*,\s*executionContext\s*(,\s*matchPat->getAlternative\(\)\s*)?\)", body)
+    if len(calls) != 2 or len(re.findall(r"getMatchScore\(", body)) != 2:
+        raise AnchorError("findTemplate: the two getMatchScore calls not recognised")
+    if bool(calls[0]) != bool(calls[1]):
+        raise AnchorError("findTemplate: the quiet and the conflict-reporting path test entries differently")
+    per_alt = bool(calls[0])
+    facts["per_alternative"] = per_alt
+    if per_alt:
+        need(r"if\s*\(\s*!patterns->empty\(\)\s*&&\s*!\(\s*prevMatchPat\s*!=\s*0\s*&&\s*prevMatched\s*==\s*true\s*&&\s*"
+             r"prevMatchPat->getTemplate\(\)\s*==\s*matchPat->getTemplate\(\)\s*\)\s*\)", body,
+             "findTemplate: non-quiet skip (same template, previous entry matched)")
+        need(r"prevPat\s*=\s*patterns\s*;\s*prevMatchPat\s*=\s*matchPat\s*;\s*prevMatched\s*=\s*false\s*;", body, "findTemplate: prevMatched reset")
+        need(r"if\s*\(\s*XPath::eMatchScoreNone\s*!=\s*score\s*\)\s*\{\s*prevMatched\s*=\s*true\s*;", body, "findTemplate: prevMatched set")
+        if len(re.findall(r"prevMatched\s*=[^=]", body)) != 3:     # declaration, reset, set
+            raise AnchorError("findTemplate: prevMatched assigned elsewhere")
+        # the index handed to the entry is the index of the alternative in getTargetData's order ...
+        ab = function_body(st, r"Stylesheet::addTemplate\s*\([^)]*\)\s*\{", "Stylesheet::addTemplate")
+        need(r"for\s*\(\s*TargetDataVectorType::size_type\s+i\s*=\s*0\s*;\s*i\s*<\s*nTargets\s*;\s*\+\+i\s*\)", ab, "addTemplate: loop over the target data")
+        need(r"data\[i\]\.getDefaultPriority\(\)\s*,\s*i\s*\)\s*;", ab, "addTemplate: alternative index passed to the entry")
+        mh = strip_comments(read("XSLT/XalanMatchPatternData.hpp"))
+        need(r"m_alternative\(\s*theAlternative\s*\)", mh, "XalanMatchPatternData: alternative stored")
+        need(r"getAlternative\(\)\s*const\s*\{\s*return\s+m_alternative\s*;", mh, "XalanMatchPatternData::getAlternative")
+        # ... and XPath::getMatchScore(.., theAlternative) walks to that alternative and tests it alone
+        gb = function_body(xp, r"XPath::getMatchScore\s*\([^)]*XalanSize_t\s+theAlternative\s*\)\s*const\s*\{", "XPath::getMatchScore(.., theAlternative)")
+        need(r"opPos\s*=\s*m_expression\.getInitialOpCodePosition\(\)\s*\+\s*2\s*;", gb, "getMatchScore(alternative): start")
+        need(r"while\s*\(\s*theAlternative\s*!=\s*0\s*&&\s*m_expression\.getOpCodeMapValue\(\s*opPos\s*\)\s*==\s*XPathExpression::eOP_LOCATIONPATHPATTERN\s*\)\s*"
+             r"\{\s*opPos\s*=\s*m_expression\.getNextOpCodePosition\(\s*opPos\s*\)\s*;\s*--theAlternative\s*;\s*\}", gb, "getMatchScore(alternative): walk")
+        if len(re.findall(r"return\s+locationPathPattern\(\s*executionContext\s*,\s*\*node\s*,\s*opPos\s*\)\s*;", gb)) != 2:
+            raise AnchorError("getMatchScore(alternative): the single locationPathPattern test not recognised")
+        # getTargetData reports exactly one entry per alternative (anchored above: push_back under 'nextOp == eENDOP')
+    else:
+        need(r"if\s*\(\s*!patterns->empty\(\)\s*&&\s*!\(\s*prevMatchPat\s*!=\s*0\s*&&\s*"
+             r"prevMatchPat->getTemplate\(\)\s*==\s*matchPat->getTemplate\(\)\s*\)\s*\)", body,
+             "findTemplate: non-quiet same-template skip")
+        if re.search(r"prevMatched", body):
+            raise AnchorError("findTemplate: prevMatched in the whole-pattern variant")
     need(r"const\s+double\s+priorityOfRule\s*=\s*matchPat->getPriorityOrDefault\(\)\s*;", body,
          "findTemplate: non-quiet path ranks by the table priority")
     if re.search(r"getMatchScoreValue\(\s*score\s*\)", body):
         raise AnchorError("findTemplate: the run-time score is used as a priority again")
     need(r"prevPat\s*=\s*patterns\s*;\s*prevMatchPat\s*=\s*matchPat\s*;", body, "findTemplate: non-quiet prev update")
+    if len(re.findall(r"prevMatchPat\s*=[^=]", body)) != 2:      # declaration and the update above
+        raise AnchorError("findTemplate: prevMatchPat assigned elsewhere")
     need(r"addObjectIfNotFound\(\s*bestMatchedPattern\s*,\s*conflicts\s*,\s*nConflicts\s*\)\s*;\s*conflicts\[nConflicts\+\+\]\s*=\s*matchPat\s*;", body,
          "findTemplate: conflict array update")
 
@@ -346,6 +384,8 @@ def gen_tmpl():
         o += "  | LStep %s NTNSWild => %s\n" % (b, row("NSWILD", attr))
     o += "  end.\n\n"
     o += "(* 'stepCount > 1 || predicate' override *)\nDefinition gen_multi_score : score := %s.\n\n" % multi
+    o += "(* Stylesheet::findTemplate tests a table entry with the alternative it was created for (true) or with the\n   whole match pattern (false, the code before the repair of K1) *)\n"
+    o += "Definition gen_per_alternative : bool := %s.\n\n" % ("true" if per_alt else "false")
     o += "(* addTemplate: lists receiving an entry, by pseudo-name (and target type) *)\n"
     o += "Definition gen_slots (tg : target) : list slot :=\n  match tg_name tg with\n"
     for k in ("TNText", "TNComment", "TNRoot", "TNPI", "TNNode"):
